@@ -456,7 +456,7 @@ def run(tier, seed, gen_info, known_ids=()):
            "encodes": ["automata::NFA::compile", "automata::NFA::sequence", "automata::NFA::choice", "automata::NFA::optional",
                        "automata::NFA::some", "automata::NFA::many", "automata::NFA::predicate", "automata::NFA::from(&str)",
                        "automata::NFA::merge_states", "automata::NFA::epsilon_closure", "automata::DFA::transition (table lookup semantics)"],
-           "expressions": len(exprs), "sample_expressions": [show(e) for e in exprs[:5] + exprs[80:85]]}
+           "expressions": len(exprs), "nontrivial": len({show(e) for e in exprs}), "sample_expressions": [show(e) for e in exprs[:5] + exprs[80:85]]}
     return rec, violations, errors, fact_problems, exprs
 
 
